@@ -223,7 +223,7 @@ def record_and_validate(ck, tier, seed, work, corrupt=None):
         if not v["accepted"]:
             at = v["reject_at"]
             bad = lines[at - 1] if at and at <= len(lines) else None
-            keep = os.path.join(vf.ROOT, "replay", "C20-trace-%d-%d.ndjson" % (seed, ci))
+            keep = os.path.join(vf.out_dir(), "replay", "C20-trace-%d-%d.ndjson" % (seed, ci))
             os.makedirs(os.path.dirname(keep), exist_ok=True)
             vf.write_ndjson(keep, lines[:at] if at else lines)
             ck.mismatch("trace/%s" % (bad["ev"] if bad else v["violation"]),
